@@ -198,7 +198,7 @@ fn worker(args: &WorkerArgs, progs: &[Prog]) -> ShardStats {
         "C16" => &["polls"],
         "C19" => &[],
         "C02" | "C03" => &["closes_completed", "new_elements_by_close", "polls"],
-        "C17" | "C18" => &["closes_completed", "closes_cancelled", "polls"],
+        "C17" | "C18" | "C07" => &["closes_completed", "closes_cancelled", "polls"],
         _ => &["closes_completed", "closes_cancelled", "budget_hit_runs", "new_elements_by_close", "polls"],
     };
     for p in expected {
